@@ -46,6 +46,24 @@ var crashKeys = []string{"a", "b", "c", "d", "A", "B", "C"}
 // keys in upper case carry large values
 func crashBig(k string) bool { return k >= "A" && k <= "Z" }
 
+// the keys read back after a recovery: the common alphabet plus whatever else the workload writes
+func crashKeysOf(w crashWorkload) []string {
+	ks := append([]string{}, crashKeys...)
+	seen := map[string]bool{}
+	for _, k := range ks {
+		seen[k] = true
+	}
+	for _, t := range w.Txns {
+		for _, o := range t.Ops {
+			if !seen[o.K] {
+				seen[o.K] = true
+				ks = append(ks, o.K)
+			}
+		}
+	}
+	return ks
+}
+
 func crashWorkloads() []crashWorkload {
 	return []crashWorkload{
 		{"W1-rotation-flush", dbCfg{Mem: 70, Imm: 1, Block: 30, L0: 2, Ratio: 2, SL: 2},
@@ -71,6 +89,10 @@ func crashWorkloads() []crashWorkload {
 		// passed its commit; the tombstone of a meets the old a in L1, the deepest level, two commits later)
 		{"W10-multikey-deletes-cascade", dbCfg{Mem: 1, Imm: 1, Block: 4096, L0: 1, Ratio: 4, SL: 2},
 			[]txProg{wtx("Sa", "Sb"), wtx("Sd"), wtx("Da", "Sb"), wtx("Sd"), wtx("Sc"), wtx("Sa", "Dd")}, false, nil},
+		// one transaction above 1 MiB of wal records (23 keys, 22 of them with 60 000-byte values: keys E..Z), so that any
+		// staging threshold of the write path below that size is crossed inside a single commit
+		{"W11-megabyte-multikey", dbCfg{Mem: 100000, Imm: 1, Block: 4096, L0: 2, Ratio: 2, SL: 1},
+			[]txProg{wtx("Sa", "Sb"), wtx("SE", "SF", "SG", "SH", "SI", "SJ", "SK", "SL", "SM", "SN", "SO", "SP", "SQ", "SR", "SS", "ST", "SU", "SV", "SW", "SX", "SY", "SZ", "Sa"), wtx("Sb")}, true, nil},
 		// two goroutines commit multi-key transactions on disjoint keys at the same time, with rotation
 		{"W8-two-committers", dbCfg{Mem: 70, Imm: 1, Block: 4096, L0: 2, Ratio: 2, SL: 1},
 			[]txProg{wtx("Sa", "Sc"), wtx("Sa", "Sb"), wtx("Db", "Sa"), wtx("Sc", "Sd"), wtx("Dc", "Sd")}, true, [][]int{{1, 2}, {3, 4}}},
@@ -88,6 +110,9 @@ func crashWrites(w crashWorkload, i int) map[string]*string {
 				n := 30000
 				if o.K == "A" {
 					n = 65535 - len(v) // the largest value the engine accepts: its wal record exceeds 64 KiB
+				}
+				if o.K >= "E" {
+					n = 60000
 				}
 				v += strings.Repeat("x", n)
 			}
@@ -240,7 +265,7 @@ func recoverImage(img *vos.FS, cfg dbCfg, prev time.Time, class int, exp crashEx
 		readAll := func(stage string, extra kvState) bool {
 			ok := true
 			db.View(func(tx *originium.Txn) error {
-				for _, k := range append(append([]string{}, crashKeys...), "never") {
+				for _, k := range append(crashKeysOf(w), "never") {
 					v, f := tx.Get(k)
 					if stage == "recovered" {
 						out.found[k] = f
